@@ -89,20 +89,65 @@ def render_job(job):
     return lines
 
 
-def run_job(case, budget=20.0):
+def run_jobs(cases, budget=25.0):
+    """Run several senders AT THE SAME TIME in this process, each against its
+    own firmware simulator; returns one result tuple per case."""
+    import threading
+    from vf.firmware import FakeSerial
+    from gscrib.printrun import device as devmod
+    from unittest import mock
+    results = [None] * len(cases)
+    start = threading.Barrier(len(cases))
+    lock = threading.Lock()
+
+    def worker(i):
+        results[i] = run_job(cases[i], budget, _patched=True, _barrier=start, _lock=lock)
+    with mock.patch.object(devmod.serial, "Serial", FakeSerial), \
+            mock.patch.object(devmod.Device, "_disable_ttyhup", lambda self: None):
+        ths = [threading.Thread(target=worker, args=(i,), daemon=True) for i in range(len(cases))]
+        for t in ths:
+            t.start()
+        for t in ths:
+            t.join(budget + 30)
+    if any(r is None for r in results):
+        raise HarnessError("a concurrent sender did not finish")
+    for r in results:
+        if isinstance(r, BaseException):
+            raise r
+    return results
+
+
+def run_job(case, budget=20.0, _patched=False, _barrier=None, _lock=None):
+    try:
+        return _run_job(case, budget, _patched, _barrier, _lock)
+    except BaseException as e:
+        if _patched:
+            return e
+        raise
+
+
+def _run_job(case, budget, _patched, _barrier, _lock):
+    import contextlib
     from gscrib.printrun import printcore, gcoder
+    from vf.firmware import FakeSerial
     lines = render_job(case["job"])
     lat = case["lat"] or [0]
     fw = Firmware(greeting=case["greeting"], dialect=case["dialect"],
                   corrupt=set(case["corrupt"]),
                   latency=lambda i: lat[i % len(lat)])
     errors = []
-    with patched_serial(fw):
+    ctxmgr = contextlib.nullcontext() if _patched else patched_serial(fw)
+    with ctxmgr:
         p = printcore()
         p.loud = False
         p.errorcb = errors.append
         try:
-            p.connect("/dev/ttyVERIF", 115200)
+            if _patched:
+                with _lock:          # FakeSerial picks its firmware at construction
+                    FakeSerial.firmware = fw
+                    p.connect("/dev/ttyVERIF", 115200)
+            else:
+                p.connect("/dev/ttyVERIF", 115200)
             t0 = time.time()
             while not p.online and time.time() - t0 < 10:
                 time.sleep(0.002)
@@ -113,6 +158,11 @@ def run_job(case, budget=20.0):
             g = gcoder.GCode(lines)
             expected = [strip_comment(l) for l in lines]
             expected = [e for e in expected if e]
+            if _barrier is not None:
+                try:
+                    _barrier.wait(10)
+                except Exception:
+                    pass
             started = p.startprint(g)
             if not started:
                 raise HarnessError("startprint refused")
@@ -164,12 +214,45 @@ def in_known_class(case):
     if fw.wire_errors or len(fw.resend_requests) < 2:
         return False
     acc = list(fw.accepted_job)
-    return len(acc) < len(expected) and acc == expected[:len(acc)]
+    if not (len(acc) < len(expected) and acc == expected[:len(acc)]):
+        return False
+    # only the lines that were still unacknowledged when the sender ran out of
+    # new lines can be lost this way: at most one per stray ok, and the first
+    # lost line's last transmission must have been a corrupted one
+    lost = len(expected) - len(acc)
+    if lost > len(fw.resend_requests):
+        return False
+    k = len(acc)
+    tx_k = [t for t in fw.transmissions if t[1] == k]
+    return bool(tx_k) and tx_k[-1][3]
 
 
 def check(case, cl=None):
     cl = set() if cl is None else cl
-    fw, expected, status, printing_after, errors = run_job(case)
+    comp = case.get("companion")
+    if comp:
+        # a second sender object streams another job at the same time
+        c2 = {"job": comp["job"], "corrupt": comp["corrupt"], "lat": comp["lat"],
+              "dialect": case["dialect"], "greeting": case["greeting"]}
+        r1, r2 = run_jobs([case, c2])
+        cl.add("two_senders_at_once")
+        out = judge(case, r1, cl)
+        out2 = judge(c2, r2, set(), label="companion sender: ")
+        return "inconclusive" if "inconclusive" in (out, out2) else "ok"
+    return judge(case, run_job(case), cl)
+
+
+def judge(case, result, cl, label=""):
+    try:
+        return _judge(case, result, cl)
+    except Violation as v:
+        if label:
+            raise Violation(label + str(v))
+        raise
+
+
+def _judge(case, result, cl):
+    fw, expected, status, printing_after, errors = result
     LAST["fw"], LAST["expected"] = fw, expected
     job_desc = f"job={render_job(case['job'])!r} corrupt={sorted(case['corrupt'])} " \
                f"lat={case['lat']} dialect={case['dialect']}"
@@ -279,7 +362,11 @@ def strategy():
                              st.lists(st.integers(0, 12), max_size=8, unique=True)).map(sorted),
         "lat": st.lists(st.integers(0, 6), min_size=1, max_size=7),
         "dialect": st.sampled_from(["marlin", "marlin", "marlin_nospace", "teacup"]),
-        "greeting": st.sampled_from(["start", None])})
+        "greeting": st.sampled_from(["start", None]),
+        "companion": st.one_of(st.none(), st.none(), st.none(), st.fixed_dictionaries({
+            "job": job_strategy(),
+            "corrupt": st.lists(st.integers(0, 12), max_size=4, unique=True).map(sorted),
+            "lat": st.lists(st.integers(0, 6), min_size=1, max_size=4)}))})
 
 
 FIXED_JOB = [{"k": "cmd", "cmd": i, "a": i, "b": i + 1} for i in range(6)]
